@@ -532,7 +532,10 @@ func ensureHTMLSafeLoginDestination(loginDestination string) string {
 	if err != nil {
 		return profilePath
 	}
-	return parsedLoginDestination.String()
+	// The result is placed inside a double-quoted attribute of raw markup:
+	// URL.String() keeps the query verbatim, so quotes and angle brackets
+	// must be escaped here.
+	return htmltemplate.HTMLEscapeString(parsedLoginDestination.String())
 
 }
 
